@@ -193,7 +193,7 @@ func checkC06Again(t *testing.T, sc BatchSc) Verdict {
 // checkC06Dup: items whose payloads are nil or equal to each other are still n separate items:
 // post gets n items in prep's order and n results, result i from an execution of its own.
 func checkC06Dup(t *testing.T, c C07Dup) Verdict {
-	v := checkC07Dup(t, c)
+	v := dupCore(t, c, "C06")
 	if v.Violation != "" {
 		v.Fingerprint = "C06" + strings.TrimPrefix(v.Fingerprint, "C07")
 	}
